@@ -251,7 +251,24 @@ def execute(case: dict) -> dict:
             await read_some(expected)
 
         if "read_end" in r or "write_exc" in r:
-            # the stream broke: drop the transport so that the peer is woken up too
+            # the stream broke.  Whatever is tried on it afterwards must again be reported
+            # in AnyIO's vocabulary (never a raw ssl.SSLError), and a second receive must
+            # tell the same story as the first
+            post: dict = {}
+            for what in ("receive", "send"):
+                try:
+                    with anyio.fail_after(5):
+                        if what == "receive":
+                            await s.receive(10)
+                        else:
+                            await s.send(b"x")
+
+                    post[what] = "ok"
+                except BaseException as e:  # noqa: BLE001
+                    post[what] = type(e).__name__
+
+            r["post"] = post
+            # drop the transport so that the peer is woken up too
             await end.aclose()
             return
 
@@ -346,6 +363,18 @@ def execute(case: dict) -> dict:
                                  {"side": victim, "cut_at": off, "got": end}))  # fmt: skip
                 else:
                     window("truncation_detected" if compat else "ragged_eof_accepted")
+
+                post = r.get("post") or {}
+                allowed = {"BrokenResourceError", "EndOfStream", "ClosedResourceError"}
+                if post:
+                    window("operations_after_detected_truncation")
+                    if post.get("receive") != end:
+                        viol.append(("second-receive-after-truncation-tells-a-different-story",
+                                     {"first": end, "second": post.get("receive")}))  # fmt: skip
+
+                    if post.get("send") not in allowed | {"ok"}:
+                        viol.append(("send-after-truncation-leaks-foreign-exception",
+                                     {"got": post.get("send")}))  # fmt: skip
         else:
             # cut during the handshake: wrap() must fail (not hang -- no Deadlock -- and
             # not succeed)
